@@ -20,7 +20,7 @@ RULE = ('histories on ONE PyKdebugParser object: 2..8 steps, each = (filter sett
         'equals the baseline, and a canonical dump decoded at process start reads the same from a fresh parser before and '
         'after every history (state kept outside the objects); callstack_history: 2..4 callstack requests over one or two '
         'dumps on one object == fresh parser each time; v3: the same streams in a version-3 container with log blocks, filtered request == predicate; '
-        'huge_window: an open() holding 18000+ foreign records before its lookup reads the same filtered and unfiltered; cli: `traces --tid --process -cf -sf` prints the lines of the unfiltered '
+        'split_lookup: records of other classes between the chunk records of one lookup, same call text unfiltered / class 4 / BSD subclass; huge_window: an open() holding 18000+ foreign records before its lookup reads the same filtered and unfiltered; cli: `traces --tid --process -cf -sf` prints the lines of the unfiltered '
         'command at the positions the predicate selects, `callstacks --tid --process` == the library listing with those filters. Non-trivial: a class or subclass filter is active '
         'and the same request occurs at least twice in the history; distinct by history digest.')
 ASSUMPTIONS = ['subclass filters are BSD subclasses only (statement); callstack requests are compared for repeatability, '
@@ -336,7 +336,32 @@ def prop_huge_window(ctx, case):
     ctx.note(['huge', n, seed], nontrivial=True, classes=[f'window-records:{n}'])
 
 
-PROPS = {'history': prop_history, 'callstack_history': prop_callstack_history, 'cli': prop_cli, 'v3': prop_v3, 'huge_window': prop_huge_window}
+def prop_split_lookup(ctx, case):
+    """records of other classes land BETWEEN the chunk records of one long lookup (an interrupt, a scheduler record): the call
+    shows the same path unfiltered, under the BSD class filter and under its BSD subclass filter"""
+    seed, name = case['seed'], case['name']
+    tid = SC.PROGRAM_TIDS[0]
+    path = b'/Users/x/Library/Caches/' + b'd' * (30 + seed % 100) + b'/data.bin'
+    chunks = EV.lookup_events(tid, 9, path[:184])
+    evs = [SC.ev(tid, name, 1, seed, 0)]
+    for i, c in enumerate(chunks):
+        evs.append(c)
+        if i < len(chunks) - 1 and (seed >> i) % 2 == 0:
+            evs.append(SC.ev(tid, ['MACH_SCHED', 'INTERRUPT', 'PERF_THD_CSwitch', 'DecrSet'][(seed + i) % 4], 0, seed, 10 + i))
+    evs.append(SC.ev(tid, name, 2, seed, 1))
+    recs = [kmodel.ev_record((1001 + 7 * k, t, (EV.eid(c) & ~3) | q, d)) for k, (t, c, q, d) in enumerate(evs)]
+    blob = kmodel.v2_file([(tid, 100, b'P0_main')], 0, recs)
+    texts = {}
+    for label, fc, fs in (('unfiltered', [], []), ('class 4', [4], []), ('subclass', [], [EV.eid(name) >> 16]), ('class 1 + subclass', [1], [EV.eid(name) >> 16])):
+        p = fresh()
+        p.filter_class, p.filter_subclass = fc, fs
+        texts[label] = guard(lambda: [str(t) for t in p.traces(BudgetReader(blob)) if t.ktraces[0].eventid == EV.eid(name)])
+    if len(set(map(tuple, texts.values()))) != 1 or len(texts['unfiltered']) != 1 or path[:184].decode() not in texts['unfiltered'][0]:
+        raise Violation('filtered-traces:split-lookup', f'{name} whose {len(chunks)}-record lookup is interleaved with records of other classes: {texts}')
+    ctx.note(['split', name, seed], nontrivial=True, classes=['split-lookup'])
+
+
+PROPS = {'split_lookup': prop_split_lookup, 'history': prop_history, 'callstack_history': prop_callstack_history, 'cli': prop_cli, 'v3': prop_v3, 'huge_window': prop_huge_window}
 
 
 def strategy():
@@ -388,6 +413,8 @@ def run(ctx):
                                 'v3': files.v3_spec(max_events=0, max_n=2, tids=SC.PROGRAM_TIDS[:3], records_strategy=st.just([]), log_copies=2, force_logs=True)})
     ctx.run_given('v3', v3, prop_v3, ctx.n(80, 600))
     if ctx.shard == 0:
+        sl = [{'seed': ctx.seed * 17 + k, 'name': n} for k, n in enumerate(['BSC_open', 'BSC_stat64', 'BSC_access', 'BSC_open', 'BSC_unlink', 'BSC_open'] * ctx.n(1, 5))]
+        ctx.run_enum('split_lookup', sl, prop_split_lookup, exhaustive_label='path-taking calls whose long lookup is interleaved with records of other classes')
         ctx.run_enum('huge_window', [{'n': n, 'seed': ctx.seed * 13 + k} for k, n in enumerate([20000] if ctx.quick else [5000, 20000, 36000, 70000])], prop_huge_window,
                      exhaustive_label='an open() window holding 20000 (thorough: up to 70000) records of other classes before its lookup')
     if ctx.failures:
